@@ -170,46 +170,76 @@ UNDECIDED_PATTERNS = [
 ]
 
 
+def _parse_block(name, block):
+    r = {"harness": name, "status": "UNKNOWN", "checks": 0, "failed": [], "unreachable": 0,
+         "covers": None, "covers_sat": None, "time_s": None, "undetermined": 0}
+    m = re.search(r"\*\* (\d+) of (\d+) failed(?: \(([^)]*)\))?", block)
+    if m:
+        r["checks"] = int(m.group(2))
+        extra = m.group(3) or ""
+        mu = re.search(r"(\d+) unreachable", extra)
+        if mu:
+            r["unreachable"] = int(mu.group(1))
+        mu = re.search(r"(\d+) undetermined", extra)
+        if mu:
+            r["undetermined"] = int(mu.group(1))
+    m = re.search(r"\*\* (\d+) of (\d+) cover properties satisfied", block)
+    if m:
+        r["covers_sat"], r["covers"] = int(m.group(1)), int(m.group(2))
+    for m in re.finditer(r"Failed Checks: (.*)\n(?:\s*File: \"([^\"]*)\", line (\d+), in (\S+))?", block):
+        r["failed"].append({"desc": m.group(1).strip(), "file": m.group(2), "line": m.group(3),
+                            "in": m.group(4)})
+    m = re.search(r"VERIFICATION:- (\w+)", block)
+    if m:
+        r["status"] = m.group(1)
+    m = re.search(r"Verification Time: ([0-9.]+)s", block)
+    if m:
+        r["time_s"] = float(m.group(1))
+    if "TIMEOUT" in block or "timed out" in block.lower():
+        r["status"] = "TIMEOUT"
+    r["raw"] = block.strip()[-3000:]
+    return r
+
+
 def parse_kani_terse(out):
-    """Split the terse output of `cargo kani` into per-harness results."""
+    """Split the terse output of `cargo kani -j N` into per-harness results.  With several worker
+    threads the `Thread k: Checking harness X...` announcement and the result block of the same
+    thread are not adjacent, so blocks are attributed through the thread number."""
     res = {}
-    parts = re.split(r"Checking harness (\S+?)\.\.\.", out)
-    # parts = [preamble, name1, block1, name2, block2, ...]
-    for i in range(1, len(parts) - 1, 2):
-        name, block = parts[i], parts[i + 1]
-        r = {"harness": name, "status": "UNKNOWN", "checks": 0, "failed": [], "unreachable": 0,
-             "covers": None, "covers_sat": None, "time_s": None, "undetermined": 0}
-        m = re.search(r"\*\* (\d+) of (\d+) failed(?: \(([^)]*)\))?", block)
+    cur_of_thread = {}
+    blocks = {}       # harness -> list of lines
+    active = None     # harness whose result block is being read
+    for line in out.splitlines():
+        m = re.match(r"(?:Thread (\d+): )?Checking harness (\S+?)\.\.\.", line)
         if m:
-            r["checks"] = int(m.group(2))
-            extra = m.group(3) or ""
-            mu = re.search(r"(\d+) unreachable", extra)
-            if mu:
-                r["unreachable"] = int(mu.group(1))
-            mu = re.search(r"(\d+) undetermined", extra)
-            if mu:
-                r["undetermined"] = int(mu.group(1))
-        m = re.search(r"\*\* (\d+) of (\d+) cover properties satisfied", block)
+            th = m.group(1) or "0"
+            cur_of_thread[th] = m.group(2)
+            blocks.setdefault(m.group(2), [])
+            active = m.group(2) if m.group(1) is None else None
+            continue
+        m = re.match(r"Thread (\d+): (.*)", line)
         if m:
-            r["covers_sat"], r["covers"] = int(m.group(1)), int(m.group(2))
-        for m in re.finditer(r"Failed Checks: (.*)\n(?:\s*File: \"([^\"]*)\", line (\d+), in (\S+))?", block):
-            r["failed"].append({"desc": m.group(1).strip(), "file": m.group(2), "line": m.group(3),
-                                "in": m.group(4)})
-        m = re.search(r"VERIFICATION:- (\w+)", block)
-        if m:
-            r["status"] = m.group(1)
-        m = re.search(r"Verification Time: ([0-9.]+)s", block)
-        if m:
-            r["time_s"] = float(m.group(1))
-        if "TIMEOUT" in block or "timed out" in block.lower():
-            r["status"] = "TIMEOUT"
-        r["raw"] = block.strip()[-3000:]
-        res[name.split("::")[-1]] = r
+            th, rest = m.group(1), m.group(2)
+            h = cur_of_thread.get(th)
+            if rest.strip() == "":
+                active = h          # the (unprefixed) result block of this thread follows
+            else:
+                active = None
+                if h:
+                    blocks[h].append(rest)
+            continue
+        if line.startswith("Manual Harness Summary") or line.startswith("Complete - "):
+            active = None
+            continue
+        if active:
+            blocks[active].append(line)
+    for h, lines in blocks.items():
+        res[h.split("::")[-1]] = _parse_block(h, "\n".join(lines) + "\n")
     return res
 
 
 def kani_run(ws, crate, harnesses, features=None, jobs=8, timeout=900, harness_timeout=None,
-             solver=None, extra=()):
+             solver=None, extra=(), modpath=None):
     """Run the named harnesses of one crate of the woven workspace.  Returns (results, cmd, raw)."""
     cmd = ["cargo", "kani", "-p", crate] + KANI_FLAGS
     if features:
@@ -220,8 +250,10 @@ def kani_run(ws, crate, harnesses, features=None, jobs=8, timeout=900, harness_t
     if solver:
         cmd += ["--solver", solver]
     cmd += list(extra)
+    if modpath:
+        cmd += ["--exact"]
     for h in harnesses:
-        cmd += ["--harness", h]
+        cmd += ["--harness", (modpath + "::" + h) if modpath else h]
     with TargetLock("kani-" + crate) as target:
         cmd_t = cmd + ["--target-dir", target]
         rc, out, timed_out, secs = run(cmd_t, cwd=ws.ws, timeout=timeout)
@@ -230,7 +262,7 @@ def kani_run(ws, crate, harnesses, features=None, jobs=8, timeout=900, harness_t
     return res, meta, out
 
 
-def kani_playback(ws, crate, harness, features=None, timeout=600, solver=None):
+def kani_playback(ws, crate, harness, features=None, timeout=600, solver=None, modpath=None, run_native=True):
     """Obtain Kani's concrete counterexample for one failing harness (written in place into the
     woven harness file as a #[test]) and execute it natively against the real code with
     `cargo kani playback`.  Returns dict(test_text, native_failed, native_output)."""
@@ -247,8 +279,9 @@ def kani_playback(ws, crate, harness, features=None, timeout=600, solver=None):
                 p = os.path.join(root, f)
                 before[p] = open(p).read()
     with TargetLock("kani-" + crate) as target:
-        rc, out, to, _ = run(base + ["--concrete-playback=inplace", "--harness", harness,
-                                     "--target-dir", target], cwd=ws.ws, timeout=timeout)
+        hsel = ["--exact", "--harness", modpath + "::" + harness] if modpath else ["--harness", harness]
+        rc, out, to, _ = run(base + ["--concrete-playback=inplace"] + hsel + ["--target-dir", target],
+                             cwd=ws.ws, timeout=timeout)
         tests = []
         for p, old in before.items():
             new = open(p).read()
@@ -263,6 +296,10 @@ def kani_playback(ws, crate, harness, features=None, timeout=600, solver=None):
         fail_tests = [t for t in tests if "Check for `cover`" not in t["text"]] or tests
         if not fail_tests:
             return {"tests": [], "native_failed": None, "native_output": out[-3000:], "timed_out": to}
+        if not run_native:
+            return {"tests": fail_tests, "native_failed": None, "timed_out": to,
+                    "native_output": "not executed natively: the harness stubs part of the environment (kani::stub), "
+                                     "which `cargo kani playback` does not apply"}
         pb = ["cargo", "kani", "playback", "-Z", "concrete-playback", "-p", crate]
         if features:
             pb += ["--features", features]
